@@ -153,7 +153,7 @@ fn script_strategy() -> BoxedStrategy<ScriptCase> {
     bx((
         0u8..4,
         any::<bool>(),
-        dims.prop_flat_map(|d| (proptest::collection::vec(coord(), d), proptest::collection::vec(coord(), d))),
+        (dims, 1usize..=4).prop_flat_map(|(d, d2)| (proptest::collection::vec(coord(), d), proptest::collection::vec(coord(), d2))),
         (logval(), logval(), logval(), logval()),
         // make near-cancelling quadruples common: sometimes derive q_yx from the others
         proptest::option::weighted(0.25, -2.0f64..2.0),
@@ -207,9 +207,14 @@ where
 {
     let x: Vec<S> = c.x.iter().map(|r| S::of(r.0)).collect();
     let mut y: Vec<S> = c.y.iter().map(|r| S::of(r.0)).collect();
-    y.truncate(x.len());
-    while y.len() < x.len() {
-        y.push(S::of(1.0));
+    // mostly same-dimensional candidates; sometimes (salt-determined) the proposal changes the
+    // dimension of the state, which the rule covers just the same ("ends at y")
+    let keep_len = c.salt % 8 == 0 && y.len() != x.len();
+    if !keep_len {
+        y.truncate(x.len());
+        while y.len() < x.len() {
+            y.push(S::of(1.0));
+        }
     }
     let kmax = (1u64 << F::BITS) - 1;
     let (mut lp_x, mut lp_y, mut q_xy, mut q_yx) = (F::of(c.lp_x.0), F::of(c.lp_y.0), F::of(c.q_xy.0), F::of(c.q_yx.0));
@@ -315,6 +320,9 @@ where
     }
     if exact_boundary {
         cov.class("exact-boundary");
+    }
+    if y.len() != x.len() {
+        cov.class("candidate-of-different-dimension");
     }
     if c.usel == 4 {
         cov.class("u-near-exp(ratio)");
